@@ -159,12 +159,17 @@ def real_size_values(run, tier, rng):
                                    "style": style, "kaldi": kaldi, "N": N, "fbf_shape": list(got.shape), "full_shape": list(full.shape)})
             # "any float signal": half / single precision and byte-swapped samples, in chunks from one sample to several
             # DFT blocks (whether a result is produced at all must not depend on the chunking)
+            # (on a computer of its own, whose very first chunk is half precision)
+            comp_ = (compute.SIFrameComputer(sbank, frame_shift_ms=sms, frame_style=sstyle) if type(comp_) is compute.SIFrameComputer else
+                     compute.STFTFrameComputer(bank, frame_length_ms=Lms, frame_shift_ms=Sms, frame_style=style, kaldi_shift=kaldi,
+                                               window_function="hamming", include_energy=True))
             for dt in ("<f2", "<f4", ">f4", ">f8"):
                 N = 4096 + 7 + (S if dt[1] == "f" and dt[2] == "4" else 0)
                 x = (nprng.randn(N) * 4).astype(dt)
-                tol = {"2": 2e-2, "4": 1e-4, "8": 1e-8}[dt[2]]
+                # (double precision last, on the computer that has just streamed the narrower types: still double-precision round-off)
+                tol = {"2": 2e-2, "4": 1e-4, "8": 1e-10}[dt[2]]
                 results = {}
-                for label, size in (("full", None), ("chunks_of_1", 1), ("chunks_of_700", 700), ("chunks_of_3000", 3000), ("one_chunk", N)):
+                for label, size in (("chunks_of_700", 700), ("full", None), ("chunks_of_1", 1), ("chunks_of_3000", 3000), ("one_chunk", N)):
                     try:
                         if size is None:
                             results[label] = comp_.compute_full(x)
